@@ -2,6 +2,7 @@ import SwayVerif.Model.Asm
 import SwayVerif.Lemmas.AsmLive
 import SwayVerif.Lemmas.AsmGraph
 import SwayVerif.Lemmas.AsmSim
+import SwayVerif.Lemmas.AsmLiveTerm
 /-!
 # C08 — register allocation never clobbers a live value
 
@@ -34,6 +35,16 @@ theorem liveness_is_solution (ic : Bool) (ops : List AOp) (lo : List RSet)
     simp only [Option.map_some, Option.some.injEq] at h
     subst h
     exact ⟨st.liveIn, liveLoop_solution hf⟩
+
+/-- The loop bound of the model is never reached: for every op list the liveness loop reaches its
+fixpoint, the table has one duplicate-free set per op. -/
+theorem liveness_total (ic : Bool) (ops : List AOp) :
+    ∃ lo, liveness ic ops = some lo ∧ lo.length = ops.length ∧ ∀ s ∈ lo, s.Nodup := by
+  cases hf : livenessFull ic ops with
+  | none => exact absurd hf (livenessFull_ne_none ic ops)
+  | some st =>
+    have inv := liveLoop_inv _ _ _ (linv_init ic ops) hf
+    exact ⟨st.liveOut, by simp [liveness, hf], inv.lenOut, fun s hs => (inv.okOut s hs).1⟩
 
 /-- Soundness along paths: if on some control-flow path leaving op `i` through its successor `s`
 register `r` is read before being redefined, then `r` is in `live_out[i]`. -/
